@@ -88,6 +88,10 @@ RULES = [
  ('empty element of an array formula shows as 0 in the range', 'C05', 'array-formula-range-shows-blank-where-its-cell-shows-0 ({=A1:A3} with A2 empty: the cell D2 gave 0, the element of D1:D3 gave None)'),
  ('sheet name is quoted in a formula unless it is made of letters', 'C05', 'cell-raises-but-range-evaluates/cse (the member cells of an array formula on a sheet named Costs+1,2 / P&L / 2024: =index(Costs+1,2!C7:D8,1,1) is read as an expression)'),
  ('an array and an error value', 'C13', 'array-formula-member-not-pointwise/array-with-error-valued-scalar'),
+ ('OFFSET emits its other arguments', 'C02', 'reference-call/offset-of-offset/* + reference-call/offset-*/name-with-() (the emitted code was cut at the first closing bracket)'),
+ ('double quote in a sheet name', 'C02', 'reference-call/*/name-with-" (TokenError: the emitted python text literal ended at the quote)'),
+ ('functions without meta data resolve', 'C14', '*/range-named-by-offset + */range-named-by-indirect (SUM(OFFSET(...)) = 0); C02 reference-call/reference-call-as-argument/*'),
+ ('operator resolves a reference operand', 'C02', 'reference-call/reference-call-as-operand/* (OFFSET(...)+1 = #VALUE!)'),
 ]
 
 
